@@ -34,6 +34,10 @@ pub trait HistT: Clone + Sized {
     fn variance(&self, i: usize) -> f64;
     fn to_json(&self) -> Option<String>;
     fn from_json(s: &str) -> Self;
+    /// round trip through the positional serde format, where the harness has one for the type
+    fn roundtrip_pos(&self) -> Option<Result<Self, String>> {
+        None
+    }
     fn debug(&self) -> String;
 }
 
@@ -511,7 +515,13 @@ fn do_hist<H: HistT>(line: &Value, want: &HWant, rep: &mut Report) {
                     }
                 }
                 HOp::Clone(d, s) => {
-                    w[*d] = w[*s].clone();
+                    // Clone::clone and Clone::clone_from (onto whatever the destination held) are
+                    // the same step of the specification: use them alternately
+                    let src = w[*s].clone();
+                    match (&mut w[*d], &src) {
+                        (Some(dst), Some(sv)) if step % 2 == 1 => dst.clone_from(sv),
+                        _ => w[*d] = src,
+                    }
                     last = Last { kind: "clone", ok: true, bin: 0, panic: false, err: None };
                 }
                 HOp::Mul(s, kk) => {
@@ -536,6 +546,20 @@ fn do_hist<H: HistT>(line: &Value, want: &HWant, rep: &mut Report) {
                                 }
                                 if h.to_json().as_deref() != Some(j.as_str()) {
                                     viol(rep, "C18", H::NAME, line, "serialize", "serialising modified the histogram".into());
+                                }
+                                let mut r = r;
+                                match h.roundtrip_pos() {
+                                    Some(Ok(rp)) => {
+                                        rep.evaluations += 1;
+                                        if rp.bins() != h.bins() || !same_bits(&rp.ranges(), &h.ranges()) {
+                                            viol(rep, "C18", H::NAME, line, "roundtrip (positional format)", format!("restored histogram differs at step {}: {} vs {}", step + 1, rp.debug(), h.debug()));
+                                        }
+                                        if step % 2 == 1 {
+                                            r = rp;
+                                        }
+                                    }
+                                    Some(Err(_)) => rep.bump("positional_format_not_supported", 1),
+                                    None => {}
                                 }
                                 w[*s] = Some(r);
                             }
